@@ -409,7 +409,7 @@ def gen_malformed(ctx, seeds):
     rng = ctx.rng
     out = []
     seeds = [s for s in seeds if len(s) > 10]
-    pick = seeds if ctx.thorough else rng.sample(seeds, min(len(seeds), 12))
+    pick = rng.sample(seeds, min(len(seeds), 120 if ctx.thorough else 12))
     for s in pick[:40 if ctx.thorough else 4]:           # every truncation
         for n in range(len(s)):
             out.append((s[:n], 'truncate'))
